@@ -16,6 +16,7 @@ import (
 	"pgregory.net/rapid"
 
 	proxyv1alpha1 "github.com/kubewharf/kubegateway/pkg/apis/proxy/v1alpha1"
+	"github.com/kubewharf/kubegateway/pkg/clusters"
 	"verifharness/internal/gwbox"
 	"verifharness/internal/stats"
 )
@@ -144,12 +145,13 @@ func quick(g *gwbox.Gateway, host, path string) (int, int) {
 }
 
 func TestPropRemovalCutsInflight(t *testing.T) {
-	sub := stats.NewSub("removal-timing", "rapid: what is removed (cluster c1 / the first endpoint of c1), when relative to a target request on that endpoint (before it is sent / while the stub delays its headers / after j = 1..5 streamed chunks), 0-3 bystanders (streams or held requests on the other endpoint of c1 and on cluster c2); oracle: the target ends at the client and its context dies at the stub within 2 s of the removal; afterwards requests to the deleted cluster get 503 and nothing is forwarded, the removed endpoint is never picked again; bystander streams keep delivering chunks for 300 ms and finish normally when released, held bystander requests return 200; non-trivial = the removal happens while the target is connecting or streaming and there is >= 1 bystander; distinct by FNV-64 of the plan")
+	sub := stats.NewSub("removal-timing", "rapid: what is removed (cluster c1 / the first endpoint of c1), when relative to a target request on that endpoint (before it is sent / while the stub delays its headers / after j = 1..5 streamed chunks), 0-3 bystanders (streams or held requests on the other endpoint of c1 and on cluster c2); oracle: the target ends at the client and its context dies at the stub within 2 s of the removal; the removed endpoint (optionally disabled and re-enabled before) receives no health probe later than 300 ms after the removal (probe period shortened to 20 ms by the verif hook); afterwards requests to the deleted cluster get 503 and nothing is forwarded, the removed endpoint is never picked again; bystander streams keep delivering chunks for 300 ms and finish normally when released, held bystander requests return 200; non-trivial = the removal happens while the target is connecting or streaming and there is >= 1 bystander; distinct by FNV-64 of the plan")
 	stats.Check(t, stats.N(20, 150), func(t *rapid.T) {
 		what := rapid.SampledFrom([]string{"cluster", "endpoint"}).Draw(t, "remove")
 		when := rapid.SampledFrom([]string{"before", "connecting", "streaming", "streaming"}).Draw(t, "when")
 		j := rapid.IntRange(1, 5).Draw(t, "chunksBefore")
 		nBy := rapid.IntRange(0, 3).Draw(t, "bystanders")
+		flap := rapid.Bool().Draw(t, "disableEnableBeforeRemoval")
 		type by struct {
 			host, path string
 			streaming  bool
@@ -171,7 +173,7 @@ func TestPropRemovalCutsInflight(t *testing.T) {
 			}
 			bys = append(bys, b)
 		}
-		plan := fmt.Sprintf("remove %s %s (j=%d) bystanders %+v", what, when, j, bys)
+		plan := fmt.Sprintf("remove %s %s (j=%d) disable/enable before=%v bystanders %+v", what, when, j, flap, bys)
 		g := gwbox.NewGateway()
 		defer g.Close()
 		g.SetToken("client-token", gwbox.Identity{Name: "alice"})
@@ -179,9 +181,29 @@ func TestPropRemovalCutsInflight(t *testing.T) {
 			pool.Upstreams[i].SetHealth(200)
 		}
 		c1, c2 := clusterObj("c1", 0, 1, true), clusterObj("c2", 2, 3, true)
+		// bootstrap c1 with a dummy endpoint so that its real endpoints are added after the probe period was shortened
+		boot := gwbox.ClusterObject("c1", "gateway-secret-token")
+		boot.Spec.Servers = []proxyv1alpha1.UpstreamClusterServer{{Endpoint: "http://127.0.0.1:1"}}
+		if _, err := g.Box.Apply(boot); err != nil {
+			t.Fatalf("harness: %v", err)
+		}
+		if ci, ok := g.Box.Controller.Get("c1"); ok {
+			clusters.VerifSetHealthCheckInterval(ci, 20*time.Millisecond)
+		}
 		for _, c := range []*proxyv1alpha1.UpstreamCluster{c1, c2} {
 			if res, err := g.Box.Apply(c); err != nil || res.RequeueAfter > 0 {
 				t.Fatalf("harness: %v %v", err, res)
+			}
+		}
+		if flap {
+			// the endpoint that will be removed is disabled and enabled again first (its probe loop is restarted)
+			dis := clusterObj("c1", 0, 1, true)
+			b := true
+			dis.Spec.Servers[0].Disabled = &b
+			for _, c := range []*proxyv1alpha1.UpstreamCluster{dis, c1} {
+				if res, err := g.Box.Apply(c); err != nil || res.RequeueAfter > 0 {
+					t.Fatalf("harness: %v %v", err, res)
+				}
 			}
 		}
 		if !g.WaitReady("c1", func(string) bool { return true }, 10*time.Second) || !g.WaitReady("c2", func(string) bool { return true }, 10*time.Second) {
@@ -269,6 +291,25 @@ func TestPropRemovalCutsInflight(t *testing.T) {
 			}
 			sub.Note("target cut %.1f ms after the removal (%s, %s)", float64(ended.Sub(removedAt))/1e6, what, when)
 		}
+		// ---- health probing of the removed endpoint stops (probe period 20 ms): nothing later than 300 ms after the removal
+		probesChecked := false
+		defer func() {
+			if !probesChecked {
+				return
+			}
+		}()
+		checkProbes := func() {
+			if d := time.Until(removedAt.Add(330 * time.Millisecond)); d > 0 {
+				time.Sleep(d)
+			}
+			time.Sleep(80 * time.Millisecond)
+			for _, p := range pool.Upstreams[0].Probes() {
+				if p.After(removedAt.Add(300 * time.Millisecond)) {
+					t.Fatalf("the removed endpoint still receives health probes (%v after the removal)\nplan: %s", p.Sub(removedAt), plan)
+				}
+			}
+			probesChecked = true
+		}
 		// ---- new requests
 		if what == "cluster" {
 			for _, p := range []string{"/api/v1/namespaces/default/pods", "/healthz/x"} {
@@ -320,6 +361,7 @@ func TestPropRemovalCutsInflight(t *testing.T) {
 				}
 			}
 		}
+		checkProbes()
 		if when != "before" && len(bystanders) > 0 {
 			sub.NonTrivial(stats.HashString(plan))
 			if sub.WantSample() {
